@@ -28,5 +28,6 @@ func main() {
 		vlib.Group{Name: "spatial", Gen: genSpatial},
 		vlib.Group{Name: "mds", Gen: genMDS},
 		vlib.Group{Name: "domain", Gen: genDomain},
+		vlib.Group{Name: "dst", Gen: genDst},
 	)
 }
